@@ -296,6 +296,58 @@ def Form.xepType (F : Form) : Option Bytes :=
   | _ => none
 
 
+/-! ## Operations on the forms between decoding and hashing (round F)
+
+`Hash` reads the values of a form *as the peer sent them* (`FieldData.Raw`).  The operations
+of `form.Data` an application performs on an extension form of a reply - encoding it, reading
+typed values, `Set`, `Submit` (which returns a NEW form) - must leave those alone.  `writeBack`
+is what an implementation does that stores the typed / normalised values in their place
+(`norm f` = the values the type of `f` makes of its wire values: boolean `1` ↦ `true`, an
+address re-serialised, a single-valued type cut to its first value). -/
+
+def Form.writeBack (norm : Field → List Bytes) (F : Form) : Form :=
+  ⟨F.fields.map fun f => ⟨f.var, norm f⟩⟩
+
+def Info.afterFormOps (writes : Bool) (norm : Field → List Bytes) (i : Info) : Info :=
+  if writes then { i with forms := i.forms.map (Form.writeBack norm) } else i
+
+/-- the code: no operation of `form.Data` writes typed values over the wire values
+(regenerated fact `formOpWrites`, a probe of the real operations) -/
+def implFormOpsWrite : Bool := false
+
+/-- the operations probed by the fact, in its order -/
+def formOpNames : List String :=
+  ["marshal", "token-reader", "read", "submit", "set-submit", "submit-marshal"]
+
+/-- boolean fields: the lexical forms `1` / `0` become `true` / `false` -/
+def normBool (f : Field) : List Bytes :=
+  f.values.map fun v => if v = [0x31] then [0x74, 0x72, 0x75, 0x65] else if v = [0x30] then [0x66, 0x61, 0x6c, 0x73, 0x65] else v
+
+/-- the kinds of hashed position of the octet probe, in the order of the fact -/
+def octetKinds : List String := ["category", "type", "lang", "name", "feature", "form-type", "var", "value"]
+
+
+/-- XEP-0115 5.1 step 7 for one form, in the XEP's vocabulary: the value of its `FORM_TYPE`
+field (which must be defined), `<`, then every *other* field sorted by `var`, each rendered
+by `FieldSpec` -/
+def XepFormSpec (F : Form) (r : Bytes) : Prop :=
+  ∃ t fields rs, F.xepType = some t ∧
+    IsSort fieldLe (F.fields.filter fun fd => fd.var != formTypeVar) fields ∧
+    All₂ FieldSpec fields rs ∧ r = t ++ lt ++ rs.flatten
+
+/-- XEP-0115 5.1 steps 1-7 in the XEP's vocabulary (`xepIdentity`, `Form.xepType`; nothing
+shared with `verImpl` but the byte order `lexLe` and the key cascade `idLe`, both tied to the
+code by the probe tables): identities sorted and written `category/type/lang/name<`, features
+sorted each followed by `<`, forms sorted by their `FORM_TYPE` value -/
+def XepSpec (i : Info) (s : Bytes) : Prop :=
+  ∃ ids feats forms rs,
+    IsSort idLe i.ids ids ∧ IsSort lexLe i.feats feats ∧
+    forms.Perm i.forms ∧
+    forms.Pairwise (fun a b => ∃ x y, a.xepType = some x ∧ b.xepType = some y ∧ lexLe x y = true) ∧
+    All₂ XepFormSpec forms rs ∧
+    s = ids.flatMap xepIdentity ++ feats.flatMap (fun f => f ++ lt) ++ rs.flatten
+
+
 /-! ## Probe domains (the regenerated facts of `Generated/C20.lean` are tables over them) -/
 
 /-- for every ordered pair of distinct positions `(i, j)` of `u`: does `le u[i] u[j]` hold, i.e.
